@@ -109,6 +109,21 @@ func (queue *PacketQueue) DiscardUntilCurrentPosition() {
 	}
 }
 
+// discardSent discards the first n packets of a queue that is being
+// written to. In contrast to DiscardUntilCurrentPosition the packet at
+// the write position is kept even if it is full.
+func (queue *PacketQueue) discardSent(n int) {
+	queue.Lock()
+	defer queue.Unlock()
+
+	queue.queue = queue.queue[n:]
+	queue.indexPacket -= n
+	if queue.indexPacket < 0 {
+		queue.indexPacket = 0
+		queue.indexData = 0
+	}
+}
+
 // AllPacketsConsumend returns true if all packets have been consumed.
 func (queue *PacketQueue) AllPacketsConsumed() bool {
 	if len(queue.queue) == 0 && queue.indexPacket == 0 && queue.indexData == 0 {
